@@ -282,140 +282,164 @@ def r07a(ck, prog):
 
 
 def r07b(ck, prog):
+    """kernel wiring of do_align, decided per scenario instead of per syntactic branch: for each combination of (child a is a
+    sequence / a profile) x (child b likewise) x (a shorter / longer / as long as b) the set-up code is evaluated
+    (kcheck/scenario.py) up to the call of the Hirschberg driver, and the operands, lengths and end coordinates found there
+    must describe one of the three kernels applied to {a, b}; the path is mirrored afterwards exactly when the operands were
+    exchanged, and the lengths of a and b are back in place before the path is post-processed"""
+    import re as _re
+    from ..scenario import Run, Undecided, Sym
     D = prog.fn("do_align")
-    calls = list(D.body.calls("aln_runner"))
-    if len(calls) < 4:
-        raise AnalysisBroken("R07b slot: do_align calls aln_runner %d time(s)" % len(calls))
-    pa = [x for x in D.body.find("BinaryOperator") if x.d["op"] == "=" and x.kids[0].strip().text() == "a"]
-    shapes_seen = set()
-    for c in calls:
-        comp = c.parent
-        while comp is not None and comp.k != "CompoundStmt":
-            comp = comp.parent
-        setup = {}
-        for s in comp.kids:
-            if s is c or c.within(s):
-                break
-            for a in s.walk():
-                if a.k == "BinaryOperator" and a.d["op"] == "=":
-                    l = a.kids[0].strip()
-                    if l.k == "MemberExpr" and l.d.get("rec") == "aln_mem" and l.d["field"] in ("seq1", "seq2", "prof1", "prof2"):
-                        r = a.kids[1]
-                        isnull = "NULL" in r.mac or any("NULL" in x.mac for x in r.walk())
-                        setup[l.d["field"]] = None if isnull else r.text()
-        where = site(prog, c, "aln_runner")
-        shape = tuple("S" if k.startswith("seq") and setup.get(k) else "P" if setup.get(k) else "N" for k in ("seq1", "seq2", "prof1", "prof2"))
-        if set(setup) != {"seq1", "seq2", "prof1", "prof2"}:
-            ck.violation("R07b", "R07b/do_align/setup", where,
-                         "not all of seq1/seq2/prof1/prof2 are set before aln_runner (%s): a stale value selects the wrong kernel" % sorted(setup),
-                         prog.config)
-            continue
-        kind = {("S", "S", "N", "N"): "seqseq", ("N", "N", "P", "P"): "profileprofile", ("N", "S", "P", "N"): "seqprofile"}.get(shape)
-        first = setup["seq1"] or setup["prof1"]
-        second = setup["seq2"] or setup["prof2"] if kind != "seqprofile" else setup["seq2"]
-        swapped = "[b]" in (first or "") and "[a]" in (second or "")
-        straight = "[a]" in (first or "") and "[b]" in (second or "")
-        after = []
-        seen = False
-        for s in comp.kids:
-            if s is c or c.within(s):
-                seen = True
-                continue
-            if seen:
-                after += [x.callee for x in s.calls()]
-        mirrored = "mirror_path_n" in after
-        ck.inst("R07b", where, "shape %s -> %s kernel; first operand %s, second %s; %s%s" % (
-            shape, kind, first, second, "swapped" if swapped else "straight", ", mirrored" if mirrored else ""), prog.config)
-        shapes_seen.add(kind)
-        if kind is None:
-            ck.violation("R07b", "R07b/do_align/shape", where,
-                         "seq1/seq2/prof1/prof2 = %s matches none of the three kernels' expectations" % (shape,), prog.config)
-            continue
-        if not (swapped or straight):
-            ck.violation("R07b", "R07b/do_align/operands", where,
-                         "the two operands are %s and %s: they must be node a and node b" % (first, second), prog.config)
-        if swapped != mirrored:
-            ck.violation("R07b", "R07b/do_align/mirror", where,
-                         "a and b are %s for this call but the path is %smirrored afterwards: the returned path is transposed" % (
-                             "swapped" if swapped else "not swapped", "" if mirrored else "not "), prog.config)
-        if swapped:
-            # lengths swapped alongside
-            ls = {}
-            for s in comp.kids:
-                if s is c or c.within(s):
-                    break
-                for a in s.walk():
-                    if a.k == "BinaryOperator" and a.d["op"] == "=":
-                        l = a.kids[0].strip()
-                        if l.k == "MemberExpr" and l.d.get("rec") == "aln_mem" and l.d["field"] in ("len_a", "len_b", "enda", "endb"):
-                            ls[l.d["field"]] = a.kids[1].text()
-            if ls.get("len_a") != "len_b" or ls.get("len_b") != "len_a" or ls.get("enda") != "len_b" or ls.get("endb") != "len_a":
-                ck.violation("R07b", "R07b/do_align/swap-lengths", where,
-                             "operands are swapped but lengths / end coordinates are set as %s" % ls, prog.config)
-    if shapes_seen != {"seqseq", "profileprofile", "seqprofile"}:
-        ck.violation("R07b", "R07b/do_align/kernels", site(prog, D), "do_align reaches only the kernels %s" % sorted(shapes_seen), prog.config)
-    ck.floor("R07b", len(calls), 6, "aln_runner call sites in do_align")
+    n = 0
+    kernels = set()
+
+    def node_of(v):
+        if v is None or not isinstance(v, str):
+            return None
+        m_ = _re.findall(r"\[(a|b)\]", v)
+        return m_[0] if len(set(m_)) == 1 else None
+    for NA in (1, 3):
+        for NB in (1, 3):
+            for LA, LB in ((10, 20), (20, 10), (15, 15)):
+                atoms = {"msa->nsip[a]": NA, "msa->nsip[b]": NB, "msa->sequences[a]->len": LA, "msa->plen[a]": LA,
+                         "msa->sequences[b]->len": LB, "msa->plen[b]": LB}
+                sc = "a %s of length %d, b %s of length %d" % ("sequence" if NA == 1 else "profile", LA, "sequence" if NB == 1 else "profile", LB)
+                r = Run(prog, D, atoms, also=("init_alnmem",), stop_at=("add_gap_info_to_path_n",))
+                try:
+                    tr = r.run()
+                except Undecided as e:
+                    raise AnalysisBroken("R07b: do_align is not evaluated for the scenario '%s': %s" % (sc, e))
+                runs = [t for t in tr if t[1] in ("aln_runner", "aln_runner_serial")]
+                if len(runs) != 1 or not tr or tr[-1][1] != "add_gap_info_to_path_n":
+                    raise AnalysisBroken("R07b: scenario '%s' reaches the Hirschberg driver %d time(s) (trace %s)" % (sc, len(runs), [t[1] for t in tr]))
+                n += 1
+                st = runs[0][3]
+                where = site(prog, runs[0][4], "aln_runner")
+                f = {k_: st.get("m->" + k_) for k_ in ("seq1", "seq2", "prof1", "prof2", "len_a", "len_b", "enda", "endb", "sip")}
+                shape = tuple("S" if k_.startswith("seq") and f[k_] is not None else "P" if f[k_] is not None else "N" for k_ in ("seq1", "seq2", "prof1", "prof2"))
+                kind = {("S", "S", "N", "N"): "seqseq", ("N", "N", "P", "P"): "profileprofile", ("N", "S", "P", "N"): "seqprofile"}.get(shape)
+                first = f["seq1"] if f["seq1"] is not None else f["prof1"]
+                second = f["seq2"] if f["seq2"] is not None else f["prof2"]
+                X, Y = node_of(first), node_of(second)
+                ck.inst("R07b", where, "%s: %s kernel on (%s, %s), lengths %s/%s, ends %s/%s" % (sc, kind, first, second, f["len_a"], f["len_b"], f["enda"], f["endb"]), prog.config)
+                key = "%d%d-%d-%d" % (NA, NB, LA, LB)
+                if kind is None:
+                    ck.violation("R07b", "R07b/do_align/shape", where,
+                                 "%s: seq1/seq2/prof1/prof2 = %s matches none of the three kernels' expectations" % (sc, shape), prog.config)
+                    continue
+                kernels.add(kind)
+                if {X, Y} != {"a", "b"}:
+                    ck.violation("R07b", "R07b/do_align/operands", where,
+                                 "%s: the two operands are %s and %s: they must be node a and node b" % (sc, first, second), prog.config)
+                    continue
+                NX, NY = (NA, NB) if X == "a" else (NB, NA)
+                LX, LY = (LA, LB) if X == "a" else (LB, LA)
+                want_first = "profile" if shape[2] == "P" else "sequences"
+                want_second = "profile" if shape[3] == "P" else "sequences"
+                if (want_first not in str(first)) or (want_second not in str(second)) or (NX == 1) != (want_first == "sequences") or (NY == 1) != (want_second == "sequences"):
+                    ck.violation("R07b", "R07b/do_align/kernel-choice", where,
+                                 "%s: the %s kernel is given %s and %s: a single sequence goes in as its residues, a group as its profile" % (
+                                     sc, kind, first, second), prog.config)
+                if (f["len_a"], f["len_b"], f["enda"], f["endb"]) != (LX, LY, LX, LY):
+                    ck.violation("R07b", "R07b/do_align/swap-lengths", where,
+                                 "%s: the first operand is node %s (length %d) and the second node %s (length %d), but the driver is started with "
+                                 "len_a=%s len_b=%s enda=%s endb=%s: the kernels take the right edge and the terminal gap prices from them" % (
+                                     sc, X, LX, Y, LY, f["len_a"], f["len_b"], f["enda"], f["endb"]), prog.config)
+                if kind == "seqprofile" and f["sip"] != NX:
+                    ck.violation("R07b", "R07b/do_align/sip", where,
+                                 "%s: m->sip is %s, the profile operand (node %s) has %d members" % (sc, f["sip"], X, NX), prog.config)
+                after = tr[tr.index(runs[0]) + 1:]
+                mir = [t for t in after if t[1] == "mirror_path_n"]
+                if bool(mir) != (X == "b"):
+                    ck.violation("R07b", "R07b/do_align/mirror", where,
+                                 "%s: a and b are %s for this call but the path is %smirrored afterwards: the returned path is transposed" % (
+                                     sc, "swapped" if X == "b" else "not swapped", "" if mir else "not "), prog.config)
+                elif mir and [v for v in mir[0][2][1:3]] != [LA, LB]:
+                    ck.violation("R07b", "R07b/do_align/mirror-lengths", site(prog, mir[0][4], "mirror_path_n"),
+                                 "%s: mirror_path_n is given the lengths %s; the lengths of a and b are %d and %d" % (sc, mir[0][2][1:3], LA, LB), prog.config)
+                fin = tr[-1][3]
+                if (fin.get("m->len_a"), fin.get("m->len_b")) != (LA, LB):
+                    ck.violation("R07b", "R07b/do_align/restore-lengths", site(prog, tr[-1][4], "add_gap_info_to_path_n"),
+                                 "%s: when the path is post-processed m->len_a / m->len_b are %s / %s, the lengths of a and b are %d / %d" % (
+                                     sc, fin.get("m->len_a"), fin.get("m->len_b"), LA, LB), prog.config)
+    if kernels != {"seqseq", "profileprofile", "seqprofile"}:
+        ck.violation("R07b", "R07b/do_align/kernels", site(prog, D), "do_align reaches only the kernels %s" % sorted(kernels), prog.config)
+    ck.floor("R07b", n, 12, "scenarios of do_align")
 
 
 def r07c(ck, prog):
-    """sum-of-pairs weighting of groups: a profile's gap penalties are scaled by the number of sequences in the
-    group it is aligned against (the profile itself already carries its own member count through update_n):
-    set_gap_penalties_n(profile[X], len_X, nsip[Y]) with {X, Y} = {a, b}, once for each side"""
+    """sum-of-pairs weighting of groups, decided per scenario (kcheck/scenario.py; distinct member counts and lengths make the
+    arguments tell the nodes apart): a profile's gap penalties are scaled by the number of sequences in the group it is
+    aligned against - set_gap_penalties_n(profile[X], length of X, member count of the other node), for every node that is a
+    profile and for no node that is a single sequence - and in the sequence-vs-group shape m->sip is the member count of the
+    very group whose profile is handed over as prof1"""
+    import re as _re
+    from ..scenario import Run, Undecided
     D = prog.fn("do_align")
-    calls = list(D.body.calls("set_gap_penalties_n"))
-    if len(calls) < 2:
-        raise AnalysisBroken("R07c slot: do_align calls set_gap_penalties_n %d time(s)" % len(calls))
-    seen = set()
-    for c in calls:
-        if len(c.args) < 3:
-            continue
-        pa, la, sa = c.args[0].text(), c.args[1].text(), c.args[2].text()
-        mx = re.search(r"profile\[(\w+)\]", pa)
-        my = re.search(r"nsip\[(\w+)\]", sa)
-        ml = re.search(r"len_(\w+)", la)
-        where = site(prog, c, "set_gap_penalties_n")
-        ck.inst("R07c", where, "set_gap_penalties_n(%s, %s, %s)" % (pa, la, sa), prog.config)
-        if not (mx and my and ml):
-            raise AnalysisBroken("R07c: arguments of set_gap_penalties_n at %s not understood" % c.loc)
-        x, y, l = mx.group(1), my.group(1), ml.group(1)
-        if x != l:
-            ck.violation("R07c", "R07c/do_align/length-%s" % x, where,
-                         "the profile of node %s is given the length of node %s" % (x, l), prog.config)
-        if x == y:
-            ck.violation("R07c", "R07c/do_align/weight-%s" % x, where,
-                         "the gap penalties of profile %s are scaled by its own member count nsip[%s] instead of the size of the group "
-                         "it is aligned against: a gap opposite an n-member group costs n*n instead of n*m" % (x, y), prog.config)
-        # the call sits on the branch where X is a profile (nsip[X] != 1)
-        gs = [(cnd.text(), pol) for cnd, pol in guards(c) if "nsip" in cnd.text()]
-        if not any(("nsip[%s]" % x) in t and "== 1" in t.replace("(", "").replace(")", "") and not pol for t, pol in gs):
-            ck.violation("R07c", "R07c/do_align/branch-%s" % x, where,
-                         "set_gap_penalties_n for node %s is not on the 'node %s is a profile' branch (%s)" % (x, x, gs), prog.config)
-        seen.add(x)
-    if len(seen) != 2:
-        ck.violation("R07c", "R07c/do_align/sides", site(prog, D), "gap penalties are rescaled for node(s) %s only" % sorted(seen), prog.config)
-    # sequence-vs-group shape: the kernel multiplies the scalar penalties (gaps opened in the group) by m->sip, which must be
-    # the member count of the very group whose profile is handed over as prof1
+    n = 0
     nsip = 0
-    fns = [D] + [prog.functions[c.callee] for c in D.body.calls() if c.callee in prog.functions and prog.functions[c.callee].static
-                 and prog.functions[c.callee].file == D.file and c.callee != D.name]
-    for G in fns:
-        for a, lhs, rhs in stores_to_field(G.body, "aln_mem", "sip"):
-            blk = next((x for x in a.ancestors() if x.k == "CompoundStmt"), None)
-            prof = [(a2, r2) for a2, l2, r2 in stores_to_field(blk, "aln_mem", "prof1")] if blk is not None else []
-            prof = [(a2, r2) for a2, r2 in prof if next((x for x in a2.ancestors() if x.k == "CompoundStmt"), None) is blk]
-            where = site(prog, a, "sip")
-            my = re.search(r"nsip\[(\w+)\]", rhs.text())
-            mx = re.search(r"profile\[(\w+)\]", prof[0][1].text()) if len(prof) == 1 else None
-            if not (my and mx):
-                raise AnalysisBroken("R07c: the branch that sets m->sip at %s does not set prof1 = profile[X] / sip = nsip[Y] in a recognised form" % a.loc)
-            nsip += 1
-            ck.inst("R07c", where, "%s: prof1 = profile[%s], sip = nsip[%s]" % (G.name, mx.group(1), my.group(1)), prog.config)
-            if mx.group(1) != my.group(1):
-                ck.violation("R07c", "R07c/%s/sip-%s" % (G.name, mx.group(1)), where,
-                             "the group handed to the sequence-profile kernel is node %s but m->sip is the member count of node %s: gaps "
-                             "opened in the group are priced for the wrong number of sequences, the kernel no longer maximises the "
-                             "sum-of-pairs score" % (mx.group(1), my.group(1)), prog.config)
-    ck.floor("R07c", nsip, 2, "sequence-vs-group branches setting m->sip")
+    for NA, NB in ((1, 1), (1, 5), (3, 1), (3, 5)):
+        for LA, LB in ((10, 20), (20, 10)):
+            atoms = {"msa->nsip[a]": NA, "msa->nsip[b]": NB, "msa->sequences[a]->len": LA, "msa->plen[a]": LA,
+                     "msa->sequences[b]->len": LB, "msa->plen[b]": LB}
+            sc = "a %s (%d member(s), length %d), b %s (%d member(s), length %d)" % (
+                "sequence" if NA == 1 else "profile", NA, LA, "sequence" if NB == 1 else "profile", NB, LB)
+            r = Run(prog, D, atoms, also=("init_alnmem",), stop_at=("add_gap_info_to_path_n",))
+            try:
+                tr = r.run()
+            except Undecided as e:
+                raise AnalysisBroken("R07c: do_align is not evaluated for the scenario '%s': %s" % (sc, e))
+            runs = [t for t in tr if t[1] in ("aln_runner", "aln_runner_serial")]
+            if len(runs) != 1:
+                raise AnalysisBroken("R07c: scenario '%s' reaches the Hirschberg driver %d time(s)" % (sc, len(runs)))
+            before = tr[:tr.index(runs[0])]
+            scaled = {}
+            for t in before:
+                if t[1] != "set_gap_penalties_n":
+                    continue
+                m_ = _re.findall(r"profile\[(a|b)\]", str(t[2][0])) if t[2] else []
+                if len(set(m_)) != 1 or len(t[2]) < 3:
+                    raise AnalysisBroken("R07c: arguments of set_gap_penalties_n at %s not understood (%s)" % (t[4].loc, t[2]))
+                scaled[m_[0]] = (t[2][1], t[2][2], t[4])
+            n += 1
+            for X, NX, LX, NO in (("a", NA, LA, NB), ("b", NB, LB, NA)):
+                if NX == 1:
+                    if X in scaled:
+                        ck.violation("R07c", "R07c/do_align/branch-%s" % X, site(prog, scaled[X][2], "set_gap_penalties_n"),
+                                     "%s: set_gap_penalties_n is applied to node %s, which is a single sequence (its profile was just made by "
+                                     "make_profile_n with plain penalties)" % (sc, X), prog.config)
+                    continue
+                if X not in scaled:
+                    ck.violation("R07c", "R07c/do_align/sides", site(prog, D),
+                                 "%s: the gap penalties of profile %s are not rescaled before the kernels run" % (sc, X), prog.config)
+                    continue
+                ln, w, node = scaled[X]
+                where = site(prog, node, "set_gap_penalties_n")
+                ck.inst("R07c", where, "%s: set_gap_penalties_n(profile[%s], %s, %s)" % (sc, X, ln, w), prog.config)
+                if ln != LX:
+                    ck.violation("R07c", "R07c/do_align/length-%s" % X, where,
+                                 "%s: the profile of node %s is given the length %s, its length is %d" % (sc, X, ln, LX), prog.config)
+                if w != NO:
+                    ck.violation("R07c", "R07c/do_align/weight-%s" % X, where,
+                                 "%s: the gap penalties of profile %s are scaled by %s instead of the size (%d) of the group it is aligned "
+                                 "against: a gap opposite an n-member group costs n*n instead of n*m" % (sc, X, w, NO), prog.config)
+            st = runs[0][3]
+            if st.get("m->prof1") is not None and st.get("m->prof2") is None and st.get("m->seq2") is not None:
+                nsip += 1
+                m_ = _re.findall(r"profile\[(a|b)\]", str(st.get("m->prof1")))
+                X = m_[0] if len(set(m_)) == 1 else None
+                want = {"a": NA, "b": NB}.get(X)
+                where = site(prog, runs[0][4], "sip")
+                ck.inst("R07c", where, "%s: prof1 = %s, sip = %s" % (sc, st.get("m->prof1"), st.get("m->sip")), prog.config)
+                if X is None:
+                    raise AnalysisBroken("R07c: which node's profile is handed over as prof1 is not understood (%s)" % st.get("m->prof1"))
+                if st.get("m->sip") != want:
+                    ck.violation("R07c", "R07c/do_align/sip-%s" % X, where,
+                                 "%s: the group handed to the sequence-profile kernel is node %s (%d members) but m->sip is %s: gaps "
+                                 "opened in the group are priced for the wrong number of sequences, the kernel no longer maximises the "
+                                 "sum-of-pairs score" % (sc, X, want, st.get("m->sip")), prog.config)
+    ck.floor("R07c", n, 8, "scenarios of do_align")
+    ck.floor("R07c", nsip, 2, "sequence-vs-group scenarios")
 
 
 COORDS = ("startb", "endb", "starta", "enda", "len_a", "len_b")
